@@ -14,7 +14,7 @@ import (
 func TestDevEmuVsEval(t *testing.T) {
 	log.SetOutput(io.Discard)
 	rapid.Check(t, func(rt *rapid.T) {
-		p := GenProgram(rt, GenOpts{MaxItems: 600, MaxOps: 14, LDS: true, Partial: true, Exit: false, SubDword: true, SBurst: true, TrailSLoad: true, WaveDep: true})
+		p := GenProgram(rt, GenOpts{MaxItems: 600, MaxOps: 14, LDS: true, Partial: true, Exit: false, SubDword: true, SBurst: true, TrailSLoad: true, WaveDep: true, SparseWGIDs: true})
 		c, err := p.Compile()
 		if err != nil {
 			rt.Fatalf("compile: %v", err)
